@@ -428,7 +428,41 @@ def run_case(case, ctx):
                                     "extraction": [ids[s0], cutv]})
             cls.add("sub_network_queried")
     ctx.count("paths_validated", judged_paths)
-    return held(sig, judged_paths > 0, sorted(cls))
+    res = held(sig, judged_paths > 0, sorted(cls))
+
+    def again():
+        # the same Network object, asked again after another case (another network) was built and queried
+        hr = random.Random(case["ord"] + 13)
+        for _ in range(5):
+            s, t = hr.randrange(n), hr.randrange(n)
+            if s == t:
+                continue
+            tr = M.call(net.shortest_path, ids[s], ids[t])
+            d = D[s][t]
+            what = None
+            if M.is_raised(tr):
+                what = "raised"
+            elif d == G.INF:
+                what = "a path is returned although the target is unreachable" if tr is not None else None
+            elif tr is None:
+                what = "no path returned although the target is reachable"
+            else:
+                path = getattr(tr, "path", None)
+                coords = M.call(G.track_coords, tr)
+                if M.is_raised(coords) or not isinstance(path, (list, tuple)) or len(path) < 2 or \
+                        any(q not in ids for q in path) or path[0] != ids[s] or path[-1] != ids[t]:
+                    what = "no valid node list / coordinates"
+                else:
+                    prob, _f = judge_route(spec, A, [ids.index(q) for q in path], coords, d)
+                    what = prob[0] if prob else None
+            if what:
+                return {"what": "shortest_path on a network that was queried before, asked again after ANOTHER network "
+                                "was built and queried in between: " + what, "s": ids[s], "t": ids[t], "true_distance": d,
+                        "graph": {"n": n, "pos": spec["pos"], "edges": spec["edges"]}}
+        return None
+    if not big:
+        res["again"] = again
+    return res
 
 
 def classify(case, witness):
